@@ -461,9 +461,11 @@ func (e *cEnv) phase(ph string) bool {
 	case "stall", "blackhole":
 		grace := teardownGrace(e.pair.T)
 		if kind == "blackhole" {
-			// nobody reads any more while a user stream keeps both ends writing: their TCP buffers fill up;
-			// yamux adds its 10 s connection write timeout to the teardown path
-			grace += 15 * time.Second
+			// nobody reads any more while user streams keep both ends writing: their TCP buffers fill up. With tcpMux
+			// every stream close on the dead session then waits for yamux's 10 s connection write timeout, one after
+			// the other, until yamux's own keep-alive (30 s + 10 s) gives the whole connection up: observed 40 s for
+			// heartbeatTimeout 2 s. That is late, not never: the watchdog covers these timers as well.
+			grace += 55 * time.Second
 			for i := 0; i < 2; i++ {
 				if uc, err := net.DialTimeout("tcp", fmt.Sprintf("127.0.0.1:%d", e.tcpPorts[0]), 3*time.Second); err == nil {
 					defer uc.Close()
@@ -536,6 +538,12 @@ func (e *cEnv) phase(ph string) bool {
 		})
 		now := h.Now()
 		bad := false
+		if srvDone() && e.srv != nil {
+			stats.add(fmt.Sprintf("C_%s_to_server_session_gone_T%d_mux=%v", kind, e.pair.T, e.mux), time.Duration(now-start))
+			if time.Duration(now-start) > T+5*time.Second {
+				run.Count("slow_teardowns", 1)
+			}
+		}
 		if frozen {
 			st := tcpStates()
 			for _, m := range must {
@@ -559,7 +567,10 @@ func (e *cEnv) phase(ph string) bool {
 				e.c.Violation(key, "relay in %s mode (no data passes), mux=%v heartbeat %d/%d: %s is still held open by frpc %.1f s after the silence began", kind, e.mux, e.pair.I, e.pair.T, m.what, secs(now-start))
 				bad = true
 			} else {
-				stats.add(fmt.Sprintf("C_%s_to_close_T%d", kind, e.pair.T), time.Duration(t-start))
+				stats.add(fmt.Sprintf("C_%s_to_client_close_T%d", kind, e.pair.T), time.Duration(t-start))
+				if time.Duration(t-start) > T+5*time.Second {
+					run.Count("slow_teardowns", 1)
+				}
 			}
 			if srvGone(m.p) == 0 && srvDone() {
 				key := "silent-session-not-torn-down"
